@@ -34,6 +34,7 @@ type Opts struct {
 	CRLF               bool   // some files are written with \r\n line ends
 	CStyleArrays       bool   // parameters may be written `int samples[]`
 	HotBias            int    // chance in 10 that a variable gets the "hot" type / a call on it targets the hot method (C05: many sites of one method)
+	ExoticNames        bool   // some method names contain non-ASCII letters or '$' (legal Java identifiers)
 	FieldsFirst        bool   // fields are declared before the constructors and methods (receivers "declared at an earlier point")
 }
 
@@ -50,6 +51,8 @@ var classSuffix = []string{"Service", "Repo", "Manager", "Handler", "Mapper", "G
 var verbWords = []string{"find", "load", "save", "build", "apply", "check", "send", "parse", "merge", "close", "open", "count", "map", "run", "sync", "fetch", "render", "verify"}
 var nounWords = []string{"Order", "User", "Total", "Item", "State", "Batch", "Route", "Price", "Token", "Entry", "Draft", "Page", "Rule", "Event"}
 var varWords = []string{"repo", "svc", "item", "req", "res", "ctx", "tmp", "cur", "next", "acc", "src", "dst", "cfg", "node", "val"}
+
+var exoticVerbs = []string{"über", "größe", "naïve", "名前", "λ", "прочитать", "get$", "$", "été", "zähle"}
 
 type external struct{ Simple, Pkg string }
 
@@ -105,8 +108,14 @@ func (g *genCtx) methodName(cls string, allowDup bool) string {
 	r := g.r
 	for try := 0; ; try++ {
 		n := g.ident(verbWords, true)
+		if g.o.ExoticNames && r.Chance(1, 6) {
+			n = r.Pick(exoticVerbs)
+		}
 		if len(n) > 1 || !g.o.LongNames {
 			n += r.Pick(nounWords)
+		}
+		if g.o.ExoticNames && r.Chance(1, 12) {
+			n += r.Pick([]string{"$", "$1", "é", "Ω"})
 		}
 		if r.Chance(1, 3) || try > 3 {
 			n += fmt.Sprint(r.Intn(90) + try*100)
